@@ -1961,6 +1961,10 @@ class Cluster(object):
         if self.profile_manager.distance(host) == HostDistance.IGNORED:
             return
 
+        if self.metadata.get_host(host.endpoint) is not host:
+            # removed from the cluster (e.g. while a failed on_up was being cleaned up)
+            return
+
         schedule = self.reconnection_policy.new_schedule()
 
         # in order to not hold references to this Cluster open and prevent
